@@ -1732,14 +1732,26 @@ class ResizeSuite(SystemSuite):
                    "oracle": {"n0": n0, "n1": n1, "stage": stage, "t_size": fstr(t_size), "closing": closing}}
 
     def _rows(self, case, out):
-        """(row number, bells, size of the tower the row was begun on) for every row wholly before or begun after the change"""
+        """(row number, bells, size of the tower) for every row GENERATED after the change and for every row finished before
+        it.  A row is generated when the last bell of the row before it has been dealt with - before the pause that follows
+        - so it counts as generated after the change only if the change arrived before the wait for that last bell began;
+        the row in progress, or already generated, at the change is left out."""
         if "trace" not in out:
             return
         o = case["oracle"]
         ts = Fraction(o["t_size"])
-        rows = rows_rung(out)
-        for i, (r, bells, t0) in enumerate(rows[:-1]):       # (the last row is cut by the horizon)
-            if t0 > ts:
+        rows = []            # [row number, bells, time of its first wait, time of its last wait]
+        last_place = None
+        for it in out["trace"]:
+            if it[1] == "r_wait":
+                bell, row, place = it[3], it[4], it[5]
+                if place == 0 or not rows or rows[-1][0] != row or last_place is None or place <= last_place:
+                    rows.append([row, [], Fraction(it[0]), None])
+                rows[-1][1].append(bell)
+                rows[-1][3] = Fraction(it[0])
+                last_place = place
+        for i, (r, bells, t0, _tl) in enumerate(rows[:-1]):       # (the last row is cut by the horizon)
+            if i >= 1 and ts < rows[i - 1][3]:
                 yield r, bells, o["n1"]
             elif rows[i + 1][2] <= ts:
                 yield r, bells, o["n0"]
